@@ -43,8 +43,11 @@ def coq_cols(rng, lp, w, mask, out, eps, tiny, rtol, maxcols=6):
     return 'check_posterior_cols %s %d %s %s [%s]' % (rtol, K - 1, core.fhex(tiny), core.fhex(eps), '; '.join(cols))
 
 
-def validity(out, K, N, lead, mask=None, eps=0.0, label='posterior'):
-    """the property's range/normalisation predicates; returns failure text or None"""
+def validity(out, K, N, lead, mask=None, eps=0.0, label='posterior', mass=None):
+    """the property's range/normalisation predicates; returns failure text or None.
+    mass: optional boolean (..., N): columns in which some active class has non-zero weight (the property's
+    quantifier: 'whenever every class has non-zero mass'); other columns must only be finite, in range and
+    sum to at most one."""
     if tuple(out.shape) != (*lead, K, N):
         return '%s has shape %s, documented (..., K, N) = %s' % (label, out.shape, (*lead, K, N))
     if not np.all(np.isfinite(out)):
@@ -53,16 +56,21 @@ def validity(out, K, N, lead, mask=None, eps=0.0, label='posterior'):
         return '%s outside [0,1]: min %.3g max %.3g' % (label, out.min(), out.max())
     s = out.sum(-2)
     tol = K * eps + (1e-5 if out.dtype == np.float32 else 1e-9)
+    if mass is None:
+        mass = np.ones(s.shape, bool)
+    if np.any(s > 1 + tol):
+        return '%s sums to more than one over classes (max %.6g)' % (label, s.max())
     if mask is not None:
         if np.any(out[~np.broadcast_to(mask, out.shape)] != 0):
             return '%s non-zero for a source the activity mask declares inactive' % label
         active = np.broadcast_to(mask, out.shape).any(-2)
-        if np.any(np.abs(s[active] - 1) > tol):
-            return '%s does not sum to one over classes (max dev %.3g)' % (label, np.abs(s[active] - 1).max())
+        sel = active & mass
+        if np.any(np.abs(s[sel] - 1) > tol):
+            return '%s does not sum to one over classes (max dev %.3g)' % (label, np.abs(s[sel] - 1).max())
         if np.any(s[~active] != 0):
             return '%s not all-zero where every source is inactive' % label
-    elif np.any(np.abs(s - 1) > tol):
-        return '%s does not sum to one over classes (max dev %.3g)' % (label, np.abs(s - 1).max())
+    elif np.any(np.abs(s[mass] - 1) > tol):
+        return '%s does not sum to one over classes (max dev %.3g)' % (label, np.abs(s[mass] - 1).max())
     return None
 
 
@@ -149,12 +157,13 @@ def degenerate(rng, name, data, mode):
         y[..., 1::2, :] = y[..., 0:1, :]
     elif mode == 'rank1':
         y[...] = y[..., :1, :] * (1 + np.arange(N))[:, None]
-    elif mode == 'big':
-        y *= 1e150
-    elif mode == 'small':
-        y *= 1e-150
-    elif mode == 'mixedscale':
-        y *= 10.0 ** rng.integers(-150, 150, size=y.shape[:-1] + (1,))
+    elif mode == 'big':          # largest magnitude exactly at the upper end of the stated range 1e150
+        y *= 1e150 / np.abs(y).max()
+    elif mode == 'small':        # smallest non-zero magnitude at the lower end 1e-150
+        y *= 1e-150 / np.abs(y)[np.abs(y) > 0].min()
+    elif mode == 'mixedscale':   # per-frame gains spread over the whole range, entries stay within 1e-150..1e150
+        y = y / np.abs(y).max(-1, keepdims=True)
+        y = y * 10.0 ** rng.integers(-140, 150, size=y.shape[:-1] + (1,))
     data = dict(data)
     data[key] = y
     return data
@@ -239,7 +248,14 @@ def eval_model(rp, rng=None):
                 'model:crash:%s:%s' % (tag, type(e).__name__), None, None, False)
     if any(data[k].tobytes() != before[k] for k in data):
         return 'caller array modified by fit/predict', 'model:mutates:%s' % name, None, None, False
-    fail = validity(aff, K, N, lead, mask=mask if name == 'cacgmm' else None, eps=0.0, label='predict(%s)' % name)
+    try:
+        wfull = mm.stored_weight(name, model, (*lead, K, N))
+        bm = np.broadcast_to(mask, wfull.shape) if (mask is not None and name == 'cacgmm') else np.ones(wfull.shape, bool)
+        # the property's precondition: every (active) class has non-zero mass at that observation
+        mass = ((wfull > 0) | ~bm).all(-2) & bm.any(-2)
+    except Exception:
+        mass = None
+    fail = validity(aff, K, N, lead, mask=mask if name == 'cacgmm' else None, eps=0.0, label='predict(%s)' % name, mass=mass)
     if fail:
         return fail, 'model:invalid:%s' % tag, None, None, False
     # every in-loop E-step
